@@ -8,9 +8,10 @@ import (
 	"strings"
 )
 
-// patternLiteral writes the pattern as a raw string, as long as a raw string can hold it
+// patternLiteral writes the pattern as a raw string, as long as a raw string can hold it (the engine's scanner
+// refuses a NUL and a byte-order mark even inside a raw string)
 func patternLiteral(pattern string) string {
-	if strings.ContainsAny(pattern, "`\r") {
+	if strings.ContainsAny(pattern, "`\r\x00\ufeff") {
 		return misc.RegoString(pattern)
 	}
 	return "`" + pattern + "`"
@@ -40,7 +41,8 @@ func GeneratePattern(pattern profile.PatternRule, iriExpander *misc.IriExpander)
 	if err != nil {
 		escapedArgumentStringByes = []byte{}
 	}
-	escapedArgumentString := string(escapedArgumentStringByes)
+	// (encoding/json writes a byte-order mark as it is; the engine's scanner refuses one anywhere in the module)
+	escapedArgumentString := strings.ReplaceAll(string(escapedArgumentStringByes), "\ufeff", `\ufeff`)
 
 	r := SimpleRegoResult{
 		Constraint: "pattern",
